@@ -155,6 +155,7 @@ PROPS = {
             part('duel', ACTIONS, 300, 6000, monitors=[M.mon_c01], props=['C01'], sub='duel'),
             part('b2b', ACTIONS, 900, 12000, monitors=[M.mon_c01], props=['C01'], sub='b2b'),
             part('timeout', TIMEOUT, 250, 5000, monitors=[M.mon_c01], props=['C01'], chunk=80),
+            part('midflight', ACTIONS, 400, 8000, monitors=[M.mon_c01], props=['C01'], sub='midflight'),
             part('flow-sqlite', FLOW, 40, 800, monitors=[M.mon_c01], props=['C01'], sub='plain', variants=1, scheds=['cur-fifo', 'cur-chaos'], snap='live', store='sqlite', restart=0.6, chunk=8),
             part('error-sqlite', ERROR, 40, 800, monitors=[M.mon_c01], props=['C01'], store='sqlite', restart=0.6, chunk=8, snap='live'),
         ],
@@ -173,6 +174,7 @@ PROPS = {
             part('sub', SUB, 200, 4000, monitors=[M.mon_c02], props=['C02'], chunk=60),
             part('b2b', ACTIONS, 900, 12000, monitors=[M.mon_c02], props=['C02'], sub='b2b'),
             part('timeout', TIMEOUT, 250, 5000, monitors=[M.mon_c02], props=['C02'], chunk=80),
+            part('midflight', ACTIONS, 400, 8000, monitors=[M.mon_c02], props=['C02'], sub='midflight'),
             part('flow-sqlite', FLOW, 40, 800, monitors=[M.mon_c02], props=['C02'], sub='plain', variants=1, scheds=['cur-fifo', 'cur-chaos'], snap='live', store='sqlite', restart=0.6, chunk=8),
             part('error-sqlite', ERROR, 40, 800, monitors=[M.mon_c02], props=['C02'], store='sqlite', restart=0.6, chunk=8, snap='live'),
         ],
@@ -189,6 +191,7 @@ PROPS = {
             part('error', ERROR, 300, 6000, monitors=[M.mon_c03], props=['C03'], chunk=60, second_error=True),
             part('b2b', ACTIONS, 900, 12000, monitors=[M.mon_c03], props=['C03'], sub='b2b'),
             part('timeout', TIMEOUT, 250, 5000, monitors=[M.mon_c03], props=['C03'], chunk=80),
+            part('midflight', ACTIONS, 400, 8000, monitors=[M.mon_c03], props=['C03'], sub='midflight'),
             part('flow-sqlite', FLOW, 40, 800, monitors=[M.mon_c03], props=['C03'], sub='plain', variants=1, scheds=['cur-fifo', 'cur-chaos'], snap='rows', store='sqlite', restart=0.6, chunk=8),
             part('error-sqlite', ERROR, 40, 800, monitors=[M.mon_c03], props=['C03'], store='sqlite', restart=0.6, chunk=8, snap='rows'),
         ],
@@ -207,6 +210,7 @@ PROPS = {
             part('sub', SUB, 200, 4000, monitors=[M.mon_c08], props=['C08'], chunk=60),
             part('b2b', ACTIONS, 900, 12000, monitors=[M.mon_c08], props=['C08'], sub='b2b'),
             part('timeout', TIMEOUT, 250, 5000, monitors=[M.mon_c08], props=['C08'], chunk=80),
+            part('midflight', ACTIONS, 400, 8000, monitors=[M.mon_c08], props=['C08'], sub='midflight'),
             part('flow-sqlite', FLOW, 40, 800, monitors=[M.mon_c08], props=['C08'], sub='plain', variants=1, scheds=['cur-fifo', 'cur-chaos'], snap='live', store='sqlite', restart=0.6, chunk=8),
             part('error-sqlite', ERROR, 40, 800, monitors=[M.mon_c08], props=['C08'], store='sqlite', restart=0.6, chunk=8, snap='live'),
             part('twoack', ACTIONS, 100, 2000, monitors=[M.mon_c08, M.mon_c08_mirror], props=['C08'], sub='matrix', mirror=True, chunk=50),
@@ -230,6 +234,7 @@ PROPS = {
             part('timeout', TIMEOUT, 200, 4000, monitors=[M.mon_c11], props=['C11'], chunk=60, snap='rows'),
             part('b2b', ACTIONS, 300, 6000, monitors=[M.mon_c11], props=['C11'], sub='b2b'),
             part('duel', ACTIONS, 150, 3000, monitors=[M.mon_c11], props=['C11'], sub='duel'),
+            part('midflight', ACTIONS, 300, 6000, monitors=[M.mon_c11], props=['C11'], sub='midflight'),
         ],
     },
     'C05': {
@@ -238,6 +243,9 @@ PROPS = {
         'parts': [
             part('matrix', ACTIONS, 1200, 20000, judge=True, props=['C05'], sub='matrix'),
             part('twins', ACTIONS, 1500, 40000, judge=True, props=['C05'], sub='twins'),
+            part('b2b', ACTIONS, 600, 10000, monitors=[M.mon_c05_generic], props=['C05'], sub='b2b'),
+            part('duel', ACTIONS, 300, 6000, monitors=[M.mon_c05_generic], props=['C05'], sub='duel'),
+            part('midflight', ACTIONS, 400, 8000, monitors=[M.mon_c05_generic], props=['C05'], sub='midflight'),
         ],
     },
     'C04': {
